@@ -777,6 +777,45 @@ func breakerRule(c *Ctx, rule string) {
 	}
 	okState = hasOpen && hasClose
 	c.check(okState, rule, "opens at failures >= threshold, closes on success", firstInstr(callFn), "stores to state: %q (required: Open(1) on error when threshold <= failures; Closed(0) on success)", stateStores)
+	// EVERY successful invocation resets the count and closes the breaker - also the probe that
+	// went through in the half-open state: with the operation's result nil, every path from the
+	// invocation to the return of Call passes failures = 0 and state = Closed
+	{
+		unit := m.unitFns(callFn)
+		resetMissing, closeMissing := false, false
+		first := true
+		m.descend = func(g *ssa.Function) bool { return containsFn(unit, g) }
+		m.exploreAssumingNil(op, map[ssa.Value]bool{ssa.Value(op): true}, 0, func(in ssa.Instruction, flag int) (int, bool) {
+			if first {
+				first = false
+				return flag, false
+			}
+			if st, ok := in.(*ssa.Store); ok {
+				a := m.Sym.Of(st.Addr).String()
+				if k, isC := constInt(st.Val); isC && k == 0 {
+					if a == "&CircuitBreaker.failures" {
+						flag |= 1
+					}
+					if a == "&CircuitBreaker.state" {
+						flag |= 2
+					}
+				}
+			}
+			if ret, ok := in.(*ssa.Return); ok && ret.Parent() == callFn {
+				// the end of Call (the exploration would go on in Call's caller)
+				if flag&1 == 0 {
+					resetMissing = true
+				}
+				if flag&2 == 0 {
+					closeMissing = true
+				}
+				return flag, true
+			}
+			return flag, false
+		}, nil)
+		m.descend = nil
+		c.check(!resetMissing && !closeMissing, rule, "every success resets the count and closes the breaker", op, "with the operation's result nil a path reaches the return of Call without failures = 0: %v; without state = Closed: %v (a breaker that closes after a half-open probe but keeps its count re-opens on the next single failure)", resetMissing, closeMissing)
+	}
 }
 
 func retryLoopRule(c *Ctx, rule string) {
